@@ -18,6 +18,7 @@ package sfnt
 
 import (
 	"fmt"
+	"sort"
 
 	"golang.org/x/exp/maps"
 	"seehuhn.de/go/postscript/cid"
@@ -91,6 +92,22 @@ func (s *subsetter) getNewGid(oldGid glyph.ID) glyph.ID {
 		s.newGid[oldGid] = newGid
 	}
 	return newGid
+}
+
+// retained returns those of the given old glyph IDs which are part of the
+// subset, sorted by new glyph ID.  Coverage tables must be built in this
+// order, since coverage indices increase with the glyph ID.
+func (s *subsetter) retained(oldGids []glyph.ID) []glyph.ID {
+	var res []glyph.ID
+	for _, oldGid := range oldGids {
+		if _, ok := s.newGid[oldGid]; ok {
+			res = append(res, oldGid)
+		}
+	}
+	sort.Slice(res, func(i, j int) bool {
+		return s.newGid[res[i]] < s.newGid[res[j]]
+	})
+	return res
 }
 
 func (s *subsetter) SubsetCMap(c cmap.Subtable) cmap.Subtable {
@@ -260,12 +277,8 @@ func (s *subsetter) SubsetGsub(old *gtab.Info) *gtab.Info {
 				sNew := &gtab.Gsub1_2{
 					Cov: make(map[glyph.ID]int),
 				}
-				for oldOrig := range sOld.Cov {
-					newFrom, ok := s.newGid[oldOrig]
-					if !ok {
-						continue
-					}
-
+				for _, oldOrig := range s.retained(maps.Keys(sOld.Cov)) {
+					newFrom := s.newGid[oldOrig]
 					newTo := oldOrig + sOld.Delta
 					sNew.Cov[newFrom] = len(sNew.SubstituteGlyphIDs)
 					sNew.SubstituteGlyphIDs = append(sNew.SubstituteGlyphIDs, s.getNewGid(newTo))
@@ -283,11 +296,9 @@ func (s *subsetter) SubsetGsub(old *gtab.Info) *gtab.Info {
 				sNew := gtab.Gsub4_1{
 					Cov: make(coverage.Table),
 				}
-				for oldFirst, idx := range sOld.Cov {
-					newFirst, ok := s.newGid[oldFirst]
-					if !ok {
-						continue
-					}
+				for _, oldFirst := range s.retained(maps.Keys(sOld.Cov)) {
+					idx := sOld.Cov[oldFirst]
+					newFirst := s.newGid[oldFirst]
 					var ligs []gtab.Ligature
 				ligLoop:
 					for _, lig := range sOld.Repl[idx] {
